@@ -14,7 +14,8 @@ EXPLANATION = (
     "C07.R3: a failed chunk creation links nothing (same rule as C05.R5). C07.R4: in every generic_*<E> single-operation "
     "method of the seven collection types no path leads from a buffer/length mutation to a call that can return Err(E) "
     "(reserve before write). C07.R5: size computations from caller-supplied counts are checked and their failure edge "
-    "constructs capacity_overflow / invalid_slice_layout / None; no unwrap on them. Not decided: post-failure values "
+    "constructs capacity_overflow / invalid_slice_layout / None; no unwrap on them. C07.R6: in E-generic RawBump methods no "
+    "E-fallible call is reachable from a write of the current-chunk cell (commit after the last fallible step). Not decided: post-failure values "
     "beyond what the ordering implies; multi-step operations (from_iter/extend).")
 
 EB = "error_behavior::ErrorBehavior"
@@ -267,6 +268,54 @@ def r5_overflow(ctx, P, R="C07.R5"):
     ctx.floor(R, "checked size computations with examined failure edges", n, 12)
 
 
+def _commit_label(v):
+    names = {c[1].split("::")[-1] for c in calls_in(v)}
+    if names & {"append_for", "new"}:
+        return "a freshly created chunk"
+    if "next" in names:
+        return "a cached successor chunk"
+    return "other value via " + ",".join(sorted(names))[:40]
+
+
+def r6_current_chunk_commit(ctx, P):
+    R = "C07.R6"
+    ctx.rule(R, "the current-chunk cell is committed after the last fallible step: in every RawBump method generic over "
+                "E: ErrorBehavior no call that can fail with E is reachable from a self.chunk.set(..) unless every return "
+                "path after that call rewrites the cell (prepared, uncommitted ranges live in the chunk that was current "
+                "before the failed call)")
+    n = nsets = 0
+    for b in P.fn_bodies():
+        if not b.path.startswith("raw_bump::RawBump::<A, S>::"):
+            continue
+        E = eb_param(b.item)
+        if not E:
+            continue
+        sets = [(s, t) for s, t in b.calls() if t["f"].get("path") == "core::cell::Cell::<T>::set" and
+                expr_mentions(b.prov_operand(t["args"][0], s), lambda x: x[0] == "field" and x[2] == "chunk" and mentions_param(x, 1))]
+        if not sets:
+            continue
+        n += 1
+        fall = [(s, t["f"]) for s, t in b.calls() if "path" in t["f"] and any(a.get("param") == E for a in t["f"].get("args", []))]
+        setbbs = [s.bb for s, _ in sets]
+        for s, t in sets:
+            nsets += 1
+            bad = []
+            for fs, f in fall:
+                if not b.can_reach(s, fs, cleanup=False):
+                    continue
+                ok, _w = b.must_pass(fs, setbbs, exits=(RET,), cleanup=False)
+                if not ok:
+                    bad.append(f["name"])
+            v = b.prov_operand(t["args"][1], s)
+            ctx.inst(R, b.path, not bad, f"self.chunk.set({show(v)[:60]}) is final: no E-fallible call follows it" if not bad else
+                     f"self.chunk.set({show(v)[:60]}) can be followed by the fallible call(s) {sorted(set(bad))} whose failure "
+                     "returns Err with the current chunk already switched: a prepared range (MutBumpVec & co.) of the "
+                     "previous chunk is then committed against the wrong chunk, and earlier chunks' free space is lost",
+                     where=b.where(s), site="chunk commit of " + _commit_label(v))
+    ctx.floor(R, "E-generic RawBump bodies writing the current-chunk cell", n, 2)
+    ctx.floor(R, "current-chunk writes examined", nsets, 3)
+
+
 def run(ctx, progs):
     ctx.assume("rustc nightly's type checker, MIR construction and trait resolution are correct")
     ctx.assume("call graph: trait-method calls on type parameters of local traits are linked to all local impls (CHA), "
@@ -279,4 +328,5 @@ def run(ctx, progs):
         c05.r5_failure_links_nothing(ctx, P, R="C07.R3")
         r4_reserve_before_write(ctx, P)
         r5_overflow(ctx, P)
+        r6_current_chunk_commit(ctx, P)
     ctx.config = None
